@@ -224,6 +224,27 @@ pub fn random_cfg(rng: &mut Sm, i: usize) -> SimCfg {
             trading: true,
         };
     }
+    // every eleventh configuration runs a round number of steps (powers of two up to 8192, 1000, 10000) with a handful
+    // of agents: step counts at which block-wise bookkeeping in the runners would come out even
+    if i % 11 == 10 {
+        return SimCfg {
+            composition: (i % 8) as u8,
+            seed: rng.next(),
+            n_steps: *rng.pick(&[256u64, 512, 1000, 1024, 2048, 4096, 4096, 8192, 10_000]),
+            step_size: *rng.pick(&[50u64, 1000]),
+            ticks: vec![rng.range(1, 10) as u32, rng.range(1, 10) as u32, rng.range(1, 10) as u32],
+            n_agents: rng.range(1, 3) as u16,
+            activity: 0.3,
+            p_limit: 0.2,
+            p_market: 0.1,
+            p_cancel: 0.6,
+            sigma: 1.0,
+            demand: 1.0,
+            center: rng.range(500, 20_000) as u32,
+            t0: 0,
+            trading: true,
+        };
+    }
     SimCfg {
         composition: (i % 8) as u8,
         // most seeds are random 64-bit values; every tenth configuration uses a very small seed (0, 1, 2, ...)
@@ -408,7 +429,7 @@ pub fn c09(ctx: &Ctx) -> i32 {
     let cov = json!({
         "evaluations": runs + children,
         "distinct_nontrivial": d.len(),
-        "rule": "cases = complete simulation runs through sim_runner / market_sim_runner: 8 compositions of the built-in agents through both derive macros (incl. nested sets; 1, 2 and 3 assets), random seeds, step counts 1..120 and 200..420 (every seventh configuration is crowded instead: 150..450 agents per set at full activity, several hundred instructions per step, 3..12 steps), step sizes, ticks 1..10 and agent parameters; each configuration is run twice in-process (the repeat after unrelated activity on the same thread: environments of the same types abandoned with unprocessed instructions, another simulation abandoned after two steps), once in a child OS process and once in a child with the progress bar (children get perturbed environment variables, working directory and heap), and once more with seed+1; compared through a 128-bit FNV digest of all orders, trades, every recorded series and the clock; distinct = distinct digests; non-trivial = the run traded",
+        "rule": "cases = complete simulation runs through sim_runner / market_sim_runner: 8 compositions of the built-in agents through both derive macros (incl. nested sets; 1, 2 and 3 assets), random seeds, step counts 1..120 and 200..420, every eleventh configuration a round step count (256 .. 8192, 1000, 10000) with a handful of agents (every seventh configuration is crowded instead: 150..450 agents per set at full activity, several hundred instructions per step, 3..12 steps), step sizes, ticks 1..10 and agent parameters; each configuration is run twice in-process (the repeat after unrelated activity on the same thread: environments of the same types abandoned with unprocessed instructions, another simulation abandoned after two steps), once in a child OS process and once in a child with the progress bar (children get perturbed environment variables, working directory and heap), and once more with seed+1; compared through a 128-bit FNV digest of all orders, trades, every recorded series and the clock; distinct = distinct digests; non-trivial = the run traded",
         "samples": samples,
         "in_process_runs": runs,
         "child_process_runs": children,
